@@ -167,12 +167,16 @@ PROPS = {
                       "[0,360), zenith = 90 − elevation, apparent = true − refraction(true), and that the "
                       "published refraction model is ≥ 0, < 0.6° and zero from 85° up on the whole range, "
                       "and that substituting latitude ±89.8° beyond it moves the zenith by at most 0.2° "
-                      "(spherical triangle inequality); about a model compared bit-for-bit with the implementation. The 0.03° agreement "
+                      "(spherical triangle inequality), and that off the degenerate branch the returned "
+                      "(zenith, azimuth) are the horizontal coordinates of (declination, hour angle): "
+                      "cos z = up, sin z·cos A = north, sin z·sin A = east; about a model compared bit-for-bit with the implementation. The 0.03° agreement "
                       "with an independent ephemeris is not a theorem (DESIGN §9).",
         "level_note": "Numerical agreement with an independent ephemeris is explored only by the "
                       "failing-input search (Astronomical-Almanac oracle, measured headroom 0.013°).",
-        "lean_modules": ["Astral.Props.C02", "Astral.Props.C02Clamp"],
+        "lean_modules": ["Astral.Props.C02", "Astral.Props.C02Clamp", "Astral.Props.C02Horiz"],
         "theorems": [
+            "Astral.C02Horiz.core", "Astral.C02Horiz.sun_horizontal", "Astral.C02Horiz.sunDeclination_range",
+            "Astral.C02Horiz.sun_api_horizontal",
             "Astral.C02Clamp.zenith_lipschitz_in_latitude", "Astral.C02Clamp.clamp_cost",
             "Astral.C02Clamp.clamp_cost_model",
             "Astral.C02.zenithOfCos_range", "Astral.C02.azimuthRaw_range", "Astral.C02.normAzimuth_range",
@@ -353,14 +357,18 @@ PROPS = {
     },
     "C12": {
         "level_text": "partial: kernel-checked theorems (exact reals) that lunar elevation ∈ [−90, 90], "
-                      "zenith = 90 − elevation ∈ [0, 180], azimuth ∈ [0, 360); dependence on the instant "
+                      "zenith = 90 − elevation ∈ [0, 180], azimuth ∈ [0, 360), and that the returned pair is "
+                      "the horizontal-coordinate transform of (declination, LST − RA): sin e = z, "
+                      "cos e·cos A = north, cos e·sin A = east on the unit sphere; dependence on the instant "
                       "only is carried by the tie (the model takes the UTC instant; the harness feeds "
                       "naive, UTC-aware and zoned spellings). 0.05° agreement with an independent lunar "
                       "theory is not a theorem and no such ephemeris is available offline.",
         "level_note": "The pinned copy of the Van Flandern–Pulkkinen table (MoonTable.lean) is the "
                       "reference for the numerical clause: any coefficient change breaks correspondence.",
-        "lean_modules": ["Astral.Props.C12"],
+        "lean_modules": ["Astral.Props.C12", "Astral.Props.C12Horiz"],
         "theorems": [
+            "Astral.C12Horiz.unit", "Astral.C12Horiz.moonXYZ_components", "Astral.C12Horiz.moon_horizontal",
+            "Astral.C12Horiz.moon_altitude_formula",
             "Astral.C12.moon_elevation_range", "Astral.C12.moon_zenith_def",
             "Astral.C12.moon_azimuth_range", "Astral.C12.wrap_identity", "Astral.C12.moon_zenith_range",
         ],
